@@ -414,6 +414,10 @@ def opts_json(o):
 
 
 def render_case(case):
+    if "_src" in case:       # a corpus file: source text as it is on disk
+        return {"case": case["case"], "src": case["_src"], "lang": case.get("lang", "jsx"),
+                "opts": case.get("optsJson") or opts_json(case["opts"]), "want": [], "env": {}, "vals": {},
+                "exports": [], "pragmas": [], "other_imports": {}}
     cx = Ctx()
     body = []
     exports = []
